@@ -324,6 +324,11 @@ class JAcc:
             if not f:
                 raise KeyError(f"{ty}.{seg}")
             f = f[0]
+            if not isinstance(j, dict):
+                # a newtype with a transparent (custom) serialization, e.g. LinkIdx -> plain integer
+                if len(self.schema.lookup(ty)) == 1:
+                    return f.ty, j
+                raise KeyError(f"{name}.{seg}: native JSON is not an object")
             if f.json_name in j:
                 return f.ty, j[f.json_name]
             if f.name in j:
